@@ -304,6 +304,22 @@ impl Prop for C19 {
         if c.hash_seed % 6 != 4 {
             return None;
         }
+        if c.hash_seed % 12 == 4 {
+            // a close relative: the same file but for one digit of a few numbers (same path, same length, same names)
+            let mut s = c.clone();
+            let bump = |f: &mut crate::model::lp::F| f.0 = if f.0.abs() >= 1.0 && f.0.abs() < 8.0 { f.0 + f.0.signum() } else { f.0 };
+            bump(&mut s.model.b0_default);
+            bump(&mut s.model.q0_const);
+            for e in &mut s.model.b0 {
+                bump(&mut e.1);
+            }
+            for e in &mut s.model.bs {
+                bump(&mut e.2);
+            }
+            s.corrupt = None;
+            s.truncate = None;
+            return Some(s);
+        }
         Some(self.gen(&mut Rng::new(c.hash_seed ^ 0x51B1_1B15), Tier::Quick, 0))
     }
 
